@@ -37,6 +37,12 @@ fn helper(family: usize, padding: u8, count: u8, words: usize, fill: u8, st: &mu
     } else {
         ensure!(r == Err(WErr::InvalidPadding { padding }), "C19:check_padding:accepts-illegal-or-wrong-error", "check_padding({padding}) = {r:?}");
     }
+    if padding % 4 != 0 {
+        // the writers are "unchecked": a third-party builder calls check_padding first (third_party.rs does),
+        // so they are exercised with legal paddings only
+        st.label("illegal padding: check_padding only");
+        return Ok(());
+    }
     // write_header_unchecked: header byte, PT, length from the buffer size, nothing else touched
     let mut buf = vec![fill; len];
     let n = with_family!(family, PT, MIN, { no_panic("writer::write_header_unchecked", || writer::write_header_unchecked::<Custom<'static, PT, MIN>>(padding, count, &mut buf))? });
@@ -85,6 +91,9 @@ fn frame(family: usize, b: &[u8], st: &mut Stats) -> Verdict {
     let (pt, min) = CUSTOM_FAMILY[family];
     let r = with_family!(family, PT, MIN, { no_panic("parser::check_packet", || parser::check_packet::<Custom<'static, PT, MIN>>(b))? });
     match ref_framing(b, Some(pt), min) {
+        // a padding count that is not a multiple of 4 is an either-zone here as in C09 / C10 (RFC 3550: the
+        // count "will be a multiple of four"; the statement's "well-framed" does not settle it)
+        Framing::Well { padding } if padding % 4 != 0 => st.label("frame:either-zone (padding count not a multiple of 4)"),
         Framing::Well { .. } => {
             st.nontrivial();
             st.label("frame:well-framed");
